@@ -10,6 +10,7 @@ import (
 	"time"
 
 	"github.com/php-any/origami/data"
+	"github.com/php-any/origami/node"
 	"github.com/php-any/origami/parser"
 	"github.com/php-any/origami/runtime"
 	"github.com/php-any/origami/std"
@@ -95,6 +96,19 @@ func Run(src string, o Opts) (res Result) {
 		}
 	}
 	res.Phase = "init"
+	// a Go panic recovered by a try statement is still a crash of the interpreter, not an error of the script
+	tryPanicMu.Lock()
+	tryPanic, tryPanicStack = "", ""
+	tryPanicMu.Unlock()
+	node.VerifTryPanic = noteTryPanic
+	defer func() {
+		tryPanicMu.Lock()
+		defer tryPanicMu.Unlock()
+		if res.Panic == "" && tryPanic != "" {
+			res.Panic = "recovered by a try statement: " + tryPanic
+			res.PanicStack = tryPanicStack
+		}
+	}()
 	defer func() {
 		if r := recover(); r != nil {
 			if up, ok := r.(uncaughtPanic); ok {
@@ -163,6 +177,26 @@ func Run(src string, o Opts) (res Result) {
 	}
 	res.Phase = "done"
 	return
+}
+
+var (
+	tryPanicMu    sync.Mutex
+	tryPanic      string
+	tryPanicStack string
+)
+
+// noteTryPanic is the handler of node.VerifTryPanic: it keeps the first panic a try statement recovered.
+// The runner's own unwinding of an uncaught control (uncaughtPanic) is not a crash.
+func noteTryPanic(r any, stack string) {
+	if _, ok := r.(uncaughtPanic); ok {
+		return
+	}
+	tryPanicMu.Lock()
+	defer tryPanicMu.Unlock()
+	if tryPanic == "" {
+		tryPanic = fmt.Sprint(r)
+		tryPanicStack = stack
+	}
 }
 
 func throwClass(acl data.Control) string {
